@@ -32,7 +32,7 @@ fn main() {
     let (mut nan_targets, mut undefined_errors) = (0usize, 0usize);
     let mut per_kind = std::collections::BTreeMap::new();
     for i in 0..n {
-        let mut sys = match i % 6 {
+        let sys = match i % 6 {
             0 => gen_planted(&mut rng, 10, 1e-2, &SHAPES),
             1 => gen_planted(&mut rng, 6, 0.3, &SHAPES),
             2 => {
@@ -52,6 +52,7 @@ fn main() {
             }
             _ => gen_linear(&mut rng, 5, 8),
         };
+        let mut sys = maybe_large(&mut rng, i, sys);
         if i % 7 == 5 {
             sys = gen_disparity(&mut rng);
         } else if i % 3 == 2 {
@@ -261,8 +262,9 @@ fn main() {
             println!("VIOLATION {}", v.to_json());
         }
     }
+    let large_systems = large_count();
     println!(
-        "STATS {{\"systems\": {systems}, \"ok_results\": {oks}, \"verdicts_checked\": {verdicts}, \"listed_unsatisfied\": {listed}, \"exempt_degenerate\": {exempt}, \"angle_reexpressions\": {angle_variants}, \"nan_target_requests\": {nan_targets}, \"undefined_errors_checked\": {undefined_errors}, \"per_kind\": {:?}, \"violations\": {}}}",
+        "STATS {{\"systems\": {systems}, \"large_systems\": {large_systems}, \"ok_results\": {oks}, \"verdicts_checked\": {verdicts}, \"listed_unsatisfied\": {listed}, \"exempt_degenerate\": {exempt}, \"angle_reexpressions\": {angle_variants}, \"nan_target_requests\": {nan_targets}, \"undefined_errors_checked\": {undefined_errors}, \"per_kind\": {:?}, \"violations\": {}}}",
         per_kind,
         out.len()
     );
